@@ -583,6 +583,10 @@ def rename(table: Table, name_map: dict[str | Col | ColName, str]) -> Pipeable:
     if d := (set(table._cache.name_to_uuid).difference(name_map)) & set(name_map.values()):
         raise ValueError(f"rename would cause duplicate column name `{next(iter(d))}`")
 
+    new_names = list(name_map.values())
+    if d := {name for name in new_names if new_names.count(name) > 1}:
+        raise ValueError(f"rename would cause duplicate column name `{next(iter(d))}`")
+
     new = copy.copy(table)
     new._ast = Rename(table._ast, name_map)
 
